@@ -176,6 +176,14 @@ func (w *world) check(site string) {
 	// (a rollback request that only one twin still holds - the other one reported it at a check inside a shift window,
 	// where "stuck" has priority in one twin only - makes this report a driver request, not a fork choice)
 	requestHeldByOneTwin := w.rollbackPending[0] != w.rollbackPending[1]
+	// (the stuck signature selects no nonce; whether consensus counts as stuck depends on probableHighestNonce, which the
+	// unchanged detector recomputes in Reset* from the stored headers but not in the self-notarized callback: callback
+	// then reset and reset then callback leave different values; see Assumptions)
+	stuckByProbableNonce := isStuckSignature(a) != isStuckSignature(b) &&
+		w.tw[0].fd.ProbableHighestNonce() != w.tw[1].fd.ProbableHighestNonce()
+	if stuckByProbableNonce && len(w.pending) == 0 {
+		c.Probe("fork_comparison_skipped_stuck_by_probable_nonce")
+	}
 	// (a header that one twin accepted and later purged as invalid while the other twin, receiving it after the final
 	// checkpoint moved, rejected it before counting it, leaves the twins with different "highest nonce received": the
 	// unchanged detector's same-round tie-break and too-late rule read that value; see Assumptions)
@@ -184,7 +192,7 @@ func (w *world) check(site string) {
 		c.Probe("fork_comparison_skipped_highest_received_nonce_differs")
 	}
 	if len(w.pending) == 0 {
-		if !requestHeldByOneTwin && !highestNonceDiffers && (a.IsDetected != b.IsDetected || a.Nonce != b.Nonce || a.Round != b.Round || !sameBytes(a.Hash, b.Hash)) {
+		if !requestHeldByOneTwin && !highestNonceDiffers && !stuckByProbableNonce && (a.IsDetected != b.IsDetected || a.Nonce != b.Nonce || a.Round != b.Round || !sameBytes(a.Hash, b.Hash)) {
 			c.Violate("C20", "twin-fork-differs", site,
 				"CheckFork differs between twins that received the same events and differ only in the order in which competing received headers arrived: A=%s B=%s",
 				fiStr(a), fiStr(b))
@@ -269,6 +277,15 @@ func (w *world) deliverDue(si int) (delivered bool) {
 			keep = append(keep, d)
 			continue
 		}
+		if d.step.Op == "notar" {
+			w.c.Eventf("late delivery to %s of the self-notarized callback", w.tw[d.twin].name)
+			w.deliverNotar(d.twin, d.step)
+			w.shiftAccepted = true
+			w.c.Probe("notarization_shift_delivered")
+			w.lastStuck = false
+			delivered = true
+			continue
+		}
 		k := (len(d.step.I) - 2) / 3
 		if k > 4 {
 			k = 4
@@ -287,6 +304,50 @@ func (w *world) deliverDue(si int) (delivered bool) {
 	}
 	w.pending = keep
 	return delivered
+}
+
+// deliverNotar invokes the self-notarized callback the shard detector registered with the block tracker.
+func (w *world) deliverNotar(ti int, st *simkit.Step) {
+	t := w.tw[ti]
+	if t.bt.handler == nil {
+		return
+	}
+	m := (len(st.I) - 1) / 2
+	if m > len(st.B) {
+		m = len(st.B)
+	}
+	shard := core.MetachainShardId
+	if st.Int(0, 1) == 0 {
+		shard = 1
+	}
+	var sn []data.HeaderHandler
+	var snh [][]byte
+	for j := 0; j < m; j++ {
+		sn = append(sn, &block.Header{Nonce: uint64(st.Int(1+2*j, 0)), Round: uint64(st.Int(2+2*j, 0))})
+		snh = append(snh, st.Bytes(j))
+	}
+	t.bt.handler(shard, sn, snh)
+	w.c.Eventf("  %s self-notarized callback shard=%d n=%d.. (%d headers)", t.name, shard, st.Int(1, 0), m)
+}
+
+// notarShiftAllowed: a notarization callback may reach one twin k events later than the other only across recovery
+// calls and passive events (ResetProbableHighestNonce, ResetFork, round ticks, CheckFork, SetRollBackNonce), and only
+// when no other shifted delivery is outstanding. Header arrivals and processed blocks are excluded from these windows
+// because of the order dependence of the unchanged detector between a header and a callback that moves the final
+// checkpoint without purging (see Assumptions).
+func (w *world) notarShiftAllowed(si, k int) bool {
+	p := w.c.Plan
+	if k < 1 || len(w.pending) > 0 {
+		return false
+	}
+	for j := si + 1; j <= si+k && j < len(p.Steps); j++ {
+		switch p.Steps[j].Op {
+		case "resetprob", "resetfork", "tick", "check", "setrb":
+		default:
+			return false
+		}
+	}
+	return true
 }
 
 // shiftAllowed decides whether the batch of step si may reach one twin k events later than the other without
@@ -531,28 +592,35 @@ func run(c *simkit.Ctx) bool {
 			if m > len(st.B) {
 				m = len(st.B)
 			}
-			if m < 1 {
+			if m < 1 || w.meta { // the meta detector does not register a callback
 				didSomething = false
 				break
 			}
-			shard := core.MetachainShardId
-			if st.Int(0, 1) == 0 {
-				shard = 1
+			// cross-event shift of a notarization callback over recovery calls: T>0 twin B, T<0 twin A gets it |T| events later
+			late := -1
+			if st.T != 0 {
+				dist := st.T
+				late = 1
+				if dist < 0 {
+					dist, late = -dist, 0
+				}
+				if dist > 10 {
+					dist = 10
+				}
+				if w.notarShiftAllowed(si, dist) {
+					w.pending = append(w.pending, deferred{twin: late, dueAt: si + dist + 1, step: st})
+					c.Probe("notarization_shift_applied")
+				} else {
+					late = -1
+				}
 			}
-			for _, t := range w.tw {
-				if t.bt.handler == nil { // the meta detector does not register
-					didSomething = false
+			for ti := range w.tw {
+				if ti == late {
+					c.Eventf("  %s gets this callback later", w.tw[ti].name)
 					continue
 				}
-				var sn []data.HeaderHandler
-				var snh [][]byte
-				for j := 0; j < m; j++ {
-					sn = append(sn, &block.Header{Nonce: uint64(st.Int(1+2*j, 0)), Round: uint64(st.Int(2+2*j, 0))})
-					snh = append(snh, st.Bytes(j))
-				}
-				t.bt.handler(shard, sn, snh)
+				w.deliverNotar(ti, st)
 			}
-			c.Eventf("  self-notarized callback shard=%d n=%d.. (%d headers)", shard, st.Int(1, 0), m)
 
 		case "addnotar":
 			if len(st.I) < 3 || len(st.B) < 2 {
@@ -579,7 +647,9 @@ func run(c *simkit.Ctx) bool {
 
 		case "remove":
 			hash := st.Bytes(0)
-			if hash == nil || onOwn(hash) {
+			// doJobOnSyncBlockFail removes the header that failed processing: a candidate for the NEXT block, never
+			// a nonce the own chain already holds (RemoveHeader drops the checkpoint of that nonce whatever the hash)
+			if hash == nil || onOwn(hash) || uint64(st.Int(0, 0)) <= headNonce() {
 				didSomething = false
 				break
 			}
